@@ -57,6 +57,7 @@ def run(ctx, R, tier):
     R.check(lb is not None, 'B.C15.lookup', 'listener_info', 'listener ids are not resolved through the generation-checked Arena::get',
             detail='listeners.get(listener_id.0)')
 
+    follows_distance(F, R)
     # ---- strength
     sb = F.body('track::sub::SpatialData::spatialize')
     if R.check(sb is not None, 'B.C15.strength', 'anchor', 'spatialize not found'):
@@ -150,6 +151,14 @@ def run(ctx, R, tier):
         okz = len(z) == 1 and 'spatial_track_info' in describe(ld, z[0][1]['args'][0]) and 'listener_info(' in describe(ld, z[0][1]['args'][1])
         R.check(okz, 'B.C15.inherit', 'listener_distance', 'listener_distance does not combine the (inherited) spatial info with listener_info()',
                 detail='spatial_track_info.zip(self.listener_info())')
+
+
+def follows_distance(F, R):
+    """A parameter linked to the listener distance keeps following it: it never becomes stagnant (only fixed targets do),
+    and Value::raw_value reads Info::listener_distance for that variant."""
+    from . import c06, c17
+    c06.finish(F, R)
+    c17.hold(F, R)
 
 
 def constructors_ordered(F):
